@@ -4,9 +4,11 @@ import (
 	_ "embed"
 	"encoding/json"
 	"fmt"
+	"go/ast"
 	"go/token"
 	"go/types"
 	"sort"
+	"strconv"
 	"strings"
 
 	"golang.org/x/tools/go/ssa"
@@ -337,6 +339,10 @@ func (tb *termBuilder) term(v ssa.Value, at ssa.Instruction) *Term {
 				return t
 			}
 		}
+		if ta, ok := x.Tuple.(*ssa.TypeAssert); ok && ta.CommaOk && x.Index == 0 {
+			// v, ok := x.(T) / switch v := x.(type): the value is the same x.(T) as in a plain assertion
+			return &Term{Op: "typeassert", Name: typeStr(ta.AssertedType), Args: []*Term{tb.term(ta.X, ta)}, V: v, In: x}
+		}
 		return &Term{Op: "extract", Name: fmt.Sprint(x.Index), Args: []*Term{tb.term(x.Tuple, x)}, V: v, In: x}
 	case *ssa.ChangeType:
 		return tb.term(x.X, x)
@@ -361,6 +367,22 @@ func (tb *termBuilder) term(v ssa.Value, at ssa.Instruction) *Term {
 			op, l, r = "<", r, l
 		case token.GEQ:
 			op, l, r = "<=", r, l
+		}
+		// arithmetic on integer literals is the literal (a named constant is folded by the compiler, a local holding
+		// the same number is not)
+		if l.Op == "const" && r.Op == "const" {
+			if a, err1 := strconv.ParseInt(l.Name, 10, 64); err1 == nil {
+				if b, err2 := strconv.ParseInt(r.Name, 10, 64); err2 == nil && a > -1<<31 && a < 1<<31 && b > -1<<31 && b < 1<<31 {
+					switch op {
+					case "+":
+						return &Term{Op: "const", Name: strconv.FormatInt(a+b, 10), V: v, In: x}
+					case "-":
+						return &Term{Op: "const", Name: strconv.FormatInt(a-b, 10), V: v, In: x}
+					case "*":
+						return &Term{Op: "const", Name: strconv.FormatInt(a*b, 10), V: v, In: x}
+					}
+				}
+			}
 		}
 		switch op {
 		case "==", "!=":
@@ -465,7 +487,13 @@ func (tb *termBuilder) term(v ssa.Value, at ssa.Instruction) *Term {
 	case *ssa.MakeMap:
 		return &Term{Op: "other", Name: "makemap", V: v, In: x}
 	case *ssa.MakeSlice:
-		return &Term{Op: "builtin", Name: "makeslice", Args: []*Term{tb.term(x.Len, x)}, V: v, In: x}
+		lt := tb.term(x.Len, x)
+		if lt.Op == "const" {
+			// make([]T, <constant>): the same spelling as the array-backed form the compiler uses for a literal size
+			u := &Term{Op: "const", Name: "_"}
+			return &Term{Op: "slice", Args: []*Term{{Op: "addr", Name: "makeslice"}, u, lt, u}, V: v, In: x}
+		}
+		return &Term{Op: "builtin", Name: "makeslice", Args: []*Term{lt}, V: v, In: x}
 	case *ssa.MakeChan:
 		return &Term{Op: "other", Name: "makechan", V: v, In: x}
 	case *ssa.Range:
@@ -503,7 +531,103 @@ func (tb *termBuilder) callTerm(c *ssa.CallCommon, v ssa.Value, in ssa.Instructi
 	for _, a := range c.Args {
 		t.Args = append(t.Args, tb.term(a, in))
 	}
+	if op == "call" {
+		if it := tb.inlineTrivial(c, t); it != nil {
+			return it
+		}
+	}
+	if op == "builtin" && name == "len" && len(t.Args) == 1 {
+		// len(make([]T, N)) is N
+		if a := t.Args[0]; a.Op == "slice" && len(a.Args) == 4 && a.Args[0].Op == "addr" && a.Args[0].Name == "makeslice" && a.Args[1].Name == "_" && a.Args[2].Op == "const" && a.Args[2].Name != "_" {
+			return &Term{Op: "const", Name: a.Args[2].Name, V: v, In: in}
+		}
+	}
 	return canonMustCodec(canonOrderCall(t))
+}
+
+// inlineTrivial: a call to a field getter (`func (v T) GetX() X { return v.X }`) is the field, and a call to a pure
+// forwarder (`func cpIncr(bz []byte) []byte { return PrefixEndBytes(bz) }`) is the call it forwards to: one spelling
+// whether the trivial function is called or written out. Only single-block repo functions whose single result is a
+// field path of a parameter, or one call whose arguments are bare parameters; their bodies are pinned by RT1.
+var trivialCache = map[*ssa.Function]*Term{}
+
+func (tb *termBuilder) trivialBody(f *ssa.Function) *Term {
+	if t, ok := trivialCache[f]; ok {
+		return t
+	}
+	trivialCache[f] = nil
+	if f == nil || len(f.Blocks) != 1 || f.Synthetic != "" || f.Parent() != nil || !tb.P.IsRepoFn(f) || f.Signature.Results().Len() != 1 {
+		return nil
+	}
+	var ret *ssa.Return
+	for _, in := range f.Blocks[0].Instrs {
+		switch x := in.(type) {
+		case *ssa.Return:
+			ret = x
+		case *ssa.Call:
+			if x.Referrers() == nil || len(*x.Referrers()) == 0 {
+				return nil // a call for effect
+			}
+		case *ssa.Store:
+			if _, isAlloc := x.Addr.(*ssa.Alloc); !isAlloc {
+				return nil // writes something
+			}
+		case *ssa.Defer, *ssa.Go, *ssa.Panic, *ssa.MapUpdate, *ssa.Send:
+			return nil
+		}
+	}
+	if ret == nil || len(ret.Results) != 1 {
+		return nil
+	}
+	sub := &termBuilder{P: tb.P, stack: map[ssa.Value]bool{}, depth: tb.depth + 1}
+	body := sub.term(ret.Results[0], ret)
+	ok := false
+	switch body.Op {
+	case "field":
+		b := body
+		for b.Op == "field" && len(b.Args) == 1 {
+			b = b.Args[0]
+		}
+		ok = b.Op == "param"
+	case "call", "invoke":
+		// forwarders: only unexported ones (an exported forwarder is API, nobody writes it out)
+		ok = body.Name != "isnil" && len(body.Args) > 0 && !ast.IsExported(f.Name())
+		for _, a := range body.Args {
+			if a.Op != "param" {
+				ok = false
+			}
+		}
+	}
+	if !ok {
+		return nil
+	}
+	trivialCache[f] = body
+	return body
+}
+
+func (tb *termBuilder) inlineTrivial(c *ssa.CallCommon, t *Term) *Term {
+	if tb.depth > maxTermDepth-2 {
+		return nil
+	}
+	f := staticCallee(c)
+	if f == nil || len(f.Params) != len(t.Args) {
+		return nil
+	}
+	body := tb.trivialBody(f)
+	if body == nil {
+		return nil
+	}
+	m := map[string]*Term{}
+	for i, p := range f.Params {
+		m[pinnedParamName(p)] = t.Args[i]
+	}
+	r := body.Subst(m)
+	n := *r
+	n.V, n.In = t.V, t.In
+	if n.Op == "call" {
+		return canonMustCodec(canonOrderCall(&n))
+	}
+	return &n
 }
 
 // canonMustCodec: amino's MustMarshalX(v) is MarshalX(v) with the error turned into a panic: one spelling for the bytes.
